@@ -9,7 +9,7 @@ from ..model import close, convert
 ID = "C12"
 LEVEL = "exploration"
 ENGINE = "E3"
-QUICK_RUNS = 5000
+QUICK_RUNS = 4000
 THOROUGH_RUNS = 2000000
 QUICK_WALL = 90
 THOROUGH_WALL = 900
@@ -138,7 +138,22 @@ def generate(tape, tier="quick"):
             c["mem_limit"] = tape.choice([0, 0, 10, 60, 200])
         if tape.chance(1, 2):
             src["mem_limit"] = tape.choice([0, 10, 60])
-    return {"engine": "E3", "src": src, "consumers": cons, "events": events, "kind": kind, "api": tape.draw(16)}
+    sc = {"engine": "E3", "src": src, "consumers": cons, "events": events, "kind": kind, "api": tape.draw(16)}
+    if tape.chance(1, 3):
+        src["time_axis"] = True
+    src_dim = {"m": ["km", "mm"], "m/s": ["mm/d"], "mm/d": ["m/s"]}.get(units)
+    if src_dim and tape.chance(1, 4):
+        # a bystander on the same output: a third consumer behind a pass-through (delay) adapter that asks for other
+        # units and reads now and then - what it is handed must not touch what the integrating adapters buffered
+        d = tape.choice([0, 1, 2])
+        cons.append({"chain": [{"kind": "delay_fixed", "d": d}], "units": tape.choice(src_dim), "bystander": True})
+        ev2, last = [], None
+        for e in events:
+            ev2.append(e)
+            if e[0] == "PUSH" and tape.chance(1, 2):
+                ev2.append(["PULL", 2, e[1]])
+        sc["events"] = ev2
+    return sc
 
 
 def execute(sc):
@@ -161,6 +176,8 @@ def execute(sc):
         if e[0] != "PULL" or e[3] != "val":
             continue
         ci, t, val = e[1], Fraction(e[2]), e[4]
+        if ci >= 2:
+            continue            # the bystander is judged by the link oracles only
         if first[ci]:
             first[ci] = False
             prev[ci] = t
